@@ -137,6 +137,14 @@ fn history_pool(quick: bool) -> Vec<Program> {
         // every 3rd bound program (deterministic sub-family, stated in the rule)
         out = out.into_iter().enumerate().filter(|(i, _)| i % 3 == 0).map(|(_, p)| p).collect();
     }
+    // the desugared `?p(k, Y)` form is the one the magic-sets rewrite acts on (it plants seed facts in the engine):
+    // the same rules queried with different constants, one after the other
+    let f10 = f10(&Bounds { quick: false });
+    let linear = [clause("p", &[X, Z], vec![pos("p", &[X, Y]), pos("e", &[Y, Z])]), clause("p", &[X, Z], vec![pos("e", &[X, Y]), pos("p", &[Y, Z])])];
+    let take: Vec<&GenProg> = f10.iter().filter(|g| g.prog.clauses[0] == clause("p", &[X, Y], vec![pos("e", &[X, Y])]) && linear.contains(&g.prog.clauses[1])).collect();
+    for g in take {
+        out.push(g.prog.clone());
+    }
     for (fam, gens) in [("F1", f1(&b)), ("F2", f2(&b)), ("F3", f3(&b)), ("F5", f5(&b)), ("F6", f6(&b))] {
         let _ = fam;
         if let Some(g) = gens.iter().min_by_key(|g| g.prog.text().len()) {
